@@ -963,6 +963,19 @@ def check_query_algebra(tier, out):
         # None / rejected values
         if _pairs(u.with_query(None)) != [] or _pairs(u.update_query(None)) != [] or _pairs(u.extend_query(None)) != ex_pairs:
             out.fail("None does not clear (with/update) or keep (extend) the query", {"existing": ex_pairs}, "?", "cleared / kept")
+        # arity: no argument, two positional arguments, positional and keyword together -> ValueError (C19: nothing else)
+        for opname in ("with_query", "extend_query", "update_query"):
+            for a, kw in (((), {}), (("a=1", "b=2"), {}), (("a=1",), {"b": "2"}), (({"a": "1"}, {"b": "2"}), {})):
+                try:
+                    getattr(u, opname)(*a, **kw)
+                except ValueError:
+                    continue
+                except Exception as ex:  # noqa: BLE001
+                    out.fail(f"{opname} with a wrong number of arguments raised something other than ValueError",
+                             {"existing": ex_pairs, "args": repr(a), "kwargs": repr(kw)}, f"{type(ex).__name__}: {ex}", "ValueError")
+                    continue
+                out.fail(f"{opname} accepted a wrong number of arguments", {"existing": ex_pairs, "args": repr(a), "kwargs": repr(kw)},
+                         "accepted", "ValueError")
         for bad in (True, None, float("nan"), float("inf"), b"x", bytearray(b"x")):
             for opname in ("with_query", "extend_query", "update_query"):
                 try:
